@@ -98,6 +98,17 @@ func runLoop(param json.RawMessage, ctx *explore.Ctx, viols *[]xrun.Viol) string
 func main() {
 	flag.Parse()
 	par.ServeIfWorker(map[string]par.Handler{"x": statemc.Handler(expand), "restart": xrun.Handler(runRestart), "loop": xrun.Handler(runLoop)})
+	if v, ok := ev.ReplayRequested(); ok {
+		switch {
+		case strings.HasPrefix(v.Part, "b-"):
+			statemc.Replay(v, expand)
+		case strings.HasPrefix(v.Part, "a-loop"):
+			xrun.Replay(v, runLoop)
+		default:
+			xrun.Replay(v, runRestart)
+		}
+		return
+	}
 	if os.Getenv("VERIF_DEBUG") != "" {
 		cfg := restartworld.Cfg{Native: os.Getenv("VERIF_DEBUG") == "native"}
 		var st explore.Stats
